@@ -6,7 +6,7 @@ Confirms a seeded change independently and files it under /verif/seeded/<name>/:
 Writes meta.json (the agent's own meta + 'confirmed' block with what was run)."""
 import json, os, shutil, subprocess, sys
 prop, src, name = sys.argv[1], os.path.abspath(sys.argv[2]), sys.argv[3]
-wt = sys.argv[4] if len(sys.argv) > 4 else "/tmp/seedwt-" + prop
+wt = "/tmp/seedwt-%s-%d" % (prop, os.getpid())  # private worktree per invocation
 env = dict(os.environ, GOFLAGS="-mod=mod", GOPROXY="off", GOSUMDB="off", GOTOOLCHAIN="local")
 def sh(cmd, cwd=None, timeout=1800):
     p = subprocess.run(cmd, shell=True, cwd=cwd, env=env, stdout=subprocess.PIPE, stderr=subprocess.STDOUT, text=True, timeout=timeout)
@@ -47,3 +47,4 @@ if ok:
     for f in os.listdir(src):
         if f != "meta.json": shutil.copy(os.path.join(src, f), dst)
     json.dump(meta, open(os.path.join(dst, "meta.json"), "w"), indent=1)
+subprocess.run("git -C /repo worktree remove --force %s" % wt, shell=True)
